@@ -618,7 +618,7 @@ def model_entry(e, names=None):
 
 NEAR_CLASSES = ('extends-end', 'extends-start', 'contains', 'proper-prefix', 'proper-suffix', 'joined', 'case')
 _IDENT = re.compile(r'^[^\W\d]\w*$')
-NEAR_CAP = 22
+NEAR_CAP = 16
 
 
 def listed_names(s):
@@ -637,14 +637,15 @@ def near_misses(listed, taken=()):
     the start, contain it, are a proper prefix / suffix of it, join two listed names, or differ from it by case only;
     round-robin over the listed names so that a cap keeps every listed name and every class represented"""
     per = []
-    for L in listed:
+    for i, L in enumerate(listed):
         c = [(L + 'x', 'extends-end'), ('x' + L, 'extends-start'), ('re' + L + '_t', 'contains'),
              (L[:-1], 'proper-prefix'), (L[1:], 'proper-suffix'), (L + '_secret', 'extends-end'),
              ('for' + L, 'extends-start'), (L.swapcase(), 'case')]
-        per.append(c)
-    for i, a in enumerate(listed):
-        for b in listed[i + 1:]:
-            per.append([(a + b, 'joined'), (b + a, 'joined')])
+        k = (3 * i) % len(c)            # another class first for each listed name: a cap keeps every class represented
+        per.append(c[k:] + c[:k])
+    pairs = [(a, b) for i, a in enumerate(listed) for b in listed[i + 1:]]
+    for j, (a, b) in enumerate(pairs[:3]):
+        per.append([(a + b, 'joined'), (b + a, 'joined')][::1 if j % 2 == 0 else -1])
     out, seen = [], set(listed) | set(taken)
     for k in range(max([len(c) for c in per] + [0])):
         for c in per:
@@ -829,7 +830,9 @@ def build_expr(form, name, with_child=False):
     return e, text
 
 
-def observe(s, form, name, with_child=False):
+def observe(s, form, name, with_child=False, text_only=False):
+    """`text_only`: the expression is parsed from its text only (names that can be written; used for the derived
+    near-miss names - the AST-vs-text comparison is made on the fixed names)"""
     global ENGINE, CTX
     if ENGINE is None:
         ENGINE = yaql.YaqlFactory().create()
@@ -841,10 +844,12 @@ def observe(s, form, name, with_child=False):
     del PLOG[:]
     del CLOG[:]
     try:
-        r = ex.Statement(e, ENGINE).evaluate(context=ctx)
+        r = (ENGINE(text) if text_only else ex.Statement(e, ENGINE)).evaluate(context=ctx)
         out, exc = repr(r), None
     except Exception as x:      # noqa
         out, exc = '%s: %s' % (type(x).__name__, x), type(x).__name__
+    if text_only:
+        return dict(log=list(PLOG), clog=list(CLOG), out=out, exc=exc, text=text)
     # the textual form must behave identically whenever it can be written
     if not name.startswith('__') or form != 'attr':
         obj2 = install(s)
@@ -945,7 +950,7 @@ def check_settings(s, drv, res, hist, replay_filter=None):
             for with_child in ((False, True) if name in ('child', 'getChild', 'alias', 'nope', 'pub') else (False,)):
                 if replay_filter and (name, form, with_child) != replay_filter:
                     continue
-                o = observe(s, form, name, with_child)
+                o = observe(s, form, name, with_child, text_only=name in near)
                 n += 1
                 if name in near and 'near_miss' in hist:
                     nk = '%s (%s)' % (near[name], 'whitelist' if s['whitelist'] else 'blacklist')
